@@ -99,4 +99,19 @@ theorem inside_of_reset (e : EL) (hne : e.rs ≠ []) (hc : Coh e 0 0) : Inside e
   | nil => exact absurd hrs hne
   | cons o rest => exact ⟨0, 0, o.r, hc, by simp [EL.ranges, hrs], Nat.zero_le _⟩
 
+/-- `hostlist_remove` (repaired D19) leaves the iterator inside the list — unless the list is empty now -/
+theorem remove_keeps_inside (cfg : Cfg) (hfix : cfg.fixRemoveDepth = true) (e : EL) (p : EditSpec.PL) (c : Nat)
+    (h : Ref cfg e p c true) (e' : EL) (hr : itRemove cfg e 0 = .ok e') : Inside e' ∨ e'.ranges = [] := by
+  obtain ⟨i, k, hc, _, hfr⟩ := h.pos
+  obtain ⟨r, hri, hk1, hk⟩ := hfr rfl
+  obtain ⟨e2, i2, k2, hrmv, _, _, _, hc2, _, _, _, hat⟩ :=
+    itRemove_spec_pos cfg hfix (·.PrintsFull cfg) (fun _ _ hp hw hh hs => narrow_of_le hp hw hh hs) e h.ids h.good h.full
+      i k hc r hri hk1 hk
+  rw [hrmv] at hr
+  simp only [Except.ok.injEq] at hr
+  subst hr
+  rcases hat with ⟨h0, _, _⟩ | ⟨r2, hr2, hk2⟩
+  · exact Or.inr h0
+  · exact Or.inl ⟨i2, k2, r2, hc2, hr2, hk2⟩
+
 end PdshVerif.Hostlist
